@@ -318,3 +318,19 @@ pub const KNOWN_MODULES: &[&str] = &["range"];
 
 /// the version of winnow whose combinators `lean/SemverGen/Winnow.lean` describes
 pub const WINNOW_VERSION: &str = "0.6.26";
+
+/// the declarations of the data types, token for token (integer widths matter: the model's naturals stand for `u64`)
+pub const EXPECTED_DECLS: &[(&str, &str)] = &[
+    ("Version", "{pubmajor:u64,pubminor:u64,pubpatch:u64,pubbuild:Vec<Identifier>,pubpre_release:Vec<Identifier>,}"),
+    ("Identifier", "{Numeric(u64),AlphaNumeric(String),}"),
+    ("Partial", "{major:Option<u64>,minor:Option<u64>,patch:Option<u64>,pre_release:Vec<Identifier>,build:Vec<Identifier>,}"),
+    ("BoundSet", "{upper:Box<Bound>,lower:Box<Bound>,}"),
+    ("Predicate", "{Excluding(Version),Including(Version),Unbounded,}"),
+    ("Bound", "{Lower(Predicate),Upper(Predicate),}"),
+    ("Range", "(Vec<BoundSet>)"),
+    ("Operation", "{Exact,GreaterThan,GreaterThanEquals,LessThan,LessThanEquals,}"),
+    ("VersionDiff", "{Major,Minor,Patch,PreMajor,PreMinor,PrePatch,PreRelease,}"),
+    ("SemverParseError", "{pub(crate)input:I,pub(crate)context:Option<&'staticstr>,pub(crate)kind:Option<SemverErrorKind>,}"),
+    ("SemverError", "{input:String,span:SourceSpan,kind:SemverErrorKind,}"),
+    ("Extras", "{Build(Vec<Identifier>),Release(Vec<Identifier>),ReleaseAndBuild((Vec<Identifier>,Vec<Identifier>)),}"),
+];
